@@ -156,6 +156,31 @@ def main(pid, argv):
             m = re.search(rb"^package (\S+)", r["src"], re.M)
             pkg = m.group(1).decode() if m else "x"
             items.append((i, r["file"][:-3], r["src"], pkg))
+        # ---- the Gallina model of the generator (Model/Gen.v), through gofmt, must reproduce the real output byte for byte ----
+        okd, outd = V.build_driver()
+        if not okd:
+            ck.broken.append("model driver build failed: " + outd[-300:])
+        else:
+            mres = V.run_model_parallel("gen-run", [V.hexs(t) for t in texts], jobs=8)
+            ntie = 0
+            for i, (t, r, ml) in enumerate(zip(texts, gres, mres)):
+                f = ml.split(" ")
+                if f[0] == "OK":
+                    p = subprocess.run(["gofmt"], input=V.unhex(f[2]), stdout=subprocess.PIPE, stderr=subprocess.PIPE, timeout=60)
+                    if r["rc"] == 0 and r["src"] is not None:
+                        if p.returncode != 0 or p.stdout != r["src"] or V.unhex(f[1]).decode("latin-1") + ".go" != r["file"]:
+                            ntie += 1
+                            if ntie <= 3:
+                                ck.tie_broken("generator output differs from gofmt(model text)", V.hexs(t)[:600], (r["src"] or b"")[:200].decode("latin-1"), p.stdout[:200].decode("latin-1"))
+                    elif p.returncode == 0:
+                        ntie += 1
+                        if ntie <= 3:
+                            ck.tie_broken("the generator failed where the model produces formattable text", V.hexs(t)[:600], r["out"][:200], "OK")
+                elif f[0] == "PARSEERR" and r["rc"] == 0:
+                    ck.tie_broken("the generator accepted a description the parser model rejects", V.hexs(t)[:600], "generated", "PARSEERR")
+                elif f[0] == "PANIC" and "panic" not in r["out"]:
+                    ck.tie_broken("the model predicts a crash (enum-typed method parameters)", V.hexs(t)[:600], r["out"][:200], "PANIC")
+            ck.count("model_compared", len(texts))
         # keyword package names cannot even be imported: judged separately
         comp = [(i, f, s) for i, f, s, pkg in items if re.fullmatch(r"[a-z_][a-z0-9_]*", f) and f not in GO_KW]
         for i, f, s, pkg in items:
